@@ -142,3 +142,24 @@ def run(rep, ctx, tier):
                 st.get("line"), modulus_ok, dividend_ok, returned)
     rep.add("R11", "sampler:index=squeeze%modulus", good >= 1,
             "every index is (bytes squeezed from the transcript) % codeword length" if good >= 1 else detail, sb.span)
+    # the number of bytes squeezed per index is a function of the codeword length (the modulus), not of t
+    from ..flow import DATA
+    sites = [(b2, i2, t2) for b2 in sorted(g.scope) for i2, t2 in f.bodies[b2].calls()
+             if (t2.get("callee") or "").endswith("CryptographicSponge::squeeze_bytes")]
+    from_n = {s[0] for s in g.reach([(sb.id, 1)], kinds=(DATA,), typed=False)}
+    from_t = {s[0] for s in g.reach([(sb.id, 2)], kinds=(DATA,), typed=False)}
+    ok = bool(sites)
+    why = "no squeeze_bytes call in the sampler"
+    for (b2, i2, t2) in sites:
+        a = t2["args"][1] if len(t2["args"]) > 1 else None
+        if a is None or a["k"] not in ("copy", "move"):
+            ok, why = False, "the byte count at %s is a constant" % t2["span"]
+            continue
+        node = (b2, a["pl"]["l"])
+        if node not in from_n:
+            ok, why = False, "the byte count squeezed at %s does not depend on the codeword length" % t2["span"]
+        elif node in from_t:
+            ok, why = False, "the byte count squeezed at %s depends on the number of queries t" % t2["span"]
+    rep.add("R11", "sampler:bytes-per-index-from-modulus", ok,
+            "the number of bytes squeezed per index is computed from the codeword length alone" if ok else
+            why + ": indices cover only a prefix of the codeword", sb.span)
